@@ -3,4 +3,4 @@ From Coq Require Import Extraction ExtrOcamlBasic NArith ZArith List.
 From PV Require Import Base.U32 Shape.ShapeImpl Cow.Heap.
 Extraction Language OCaml.
 Extraction "../ocaml/gen/cow_model.ml"
-  empty_store step run var observe live_count mk_shape reshape flatten dims batch.
+  empty_store step run var observe live_count mk_shape reshape flatten dims batch has_batch nsize.
